@@ -83,6 +83,9 @@ class C15(World):
         self.force_beh = None
         self.nontrivial = False
         self.beh_seq = []
+        self.crash_plan = None
+        self.crash_seen = 0
+        self.crashed = None
 
     # -- policies ------------------------------------------------------------------
     def behaviour(self, fi, seen):
@@ -175,11 +178,24 @@ class C15(World):
             self.check_states(states, phase, f"crash point after {kind} of {base}")
         finally:
             self.in_mutation_probe = False
+        plan = self.crash_plan
+        if plan is not None and self.sim.is_task():
+            self.crash_seen += 1
+            if not plan["torn"] and self.crash_seen > plan["at"]:
+                self.real_crash(f"right after {kind} of {base}")
+
+    def real_crash(self, where):
+        """kill the process for real at this instant: the running task(s) never continue"""
+        self.crash_plan = None
+        self.crashed = where
+        self.sim.log(f"process killed {where}")
+        self.sim.abandon_others()
+        self.sim.abandon_current()
 
     def on_torn(self, path, node, pos, data):
         if not path.startswith(DATA_DIR) or self.in_mutation_probe or len(data) < 2:
             return
-        if self.probes_done >= self.probe_budget:
+        if self.probes_done >= self.probe_budget and self.crash_plan is None:
             return
         self.in_mutation_probe = True
         try:
@@ -201,6 +217,12 @@ class C15(World):
             self.nontrivial = True
         finally:
             self.in_mutation_probe = False
+        plan = self.crash_plan
+        if plan is not None and plan["torn"] and self.sim.is_task() and self.crash_seen >= plan["at"]:
+            if pos > len(node.data):
+                node.data.extend(b"\0" * (pos - len(node.data)))
+            node.data[pos:pos + k] = data[:k]
+            self.real_crash(f"inside a write: {k} of {len(data)} bytes reached the disk")
 
     # -- one call ------------------------------------------------------------------------
     def do_call(self, client, ident, label, over):
@@ -452,7 +474,29 @@ class C15(World):
                 if dt < 0 or dt > 86400:
                     sim.count("fault.clock.jump")
             self.probe_all("before " + f"op{len(self.ops)}", charge=False)
-            op = self.do_call(clients[slot.n], slot, "seq", self.overrides())
+            over = self.overrides()
+            if ch.flag("op.crash", 0.12):
+                # a real kill -9 somewhere inside this call; the history then continues in a new process
+                self.crash_plan = {"at": ch.pick("op.crash.at", 8), "torn": ch.flag("op.crash.torn", 0.35)}
+                self.crash_seen = 0
+                self.crashed = None
+                client = clients[slot.n]
+                sim.spawn(f"P{k}", lambda: self.do_call(client, slot, "seq (to be killed)", over))
+                sim.run_tasks()
+                self.crash_plan = None
+                op = self.ops[-1]
+                if self.crashed:
+                    op.ok = None
+                    op.exc = "killed"
+                    op.t_return = sim.evno
+                    self.restart_process(self.crashed)
+                    clients.clear()
+                    self.nontrivial = True
+                    st = self.probe_all("after restart", charge=False)
+                    self.check_states(st, "after-real-crash", f"after the process was killed {self.crashed}")
+                    continue
+            else:
+                op = self.do_call(clients[slot.n], slot, "seq", over)
             self.probe_all("after " + op.id, charge=False)
             self.judge(op, overlapping=False)
 
